@@ -509,10 +509,42 @@ func runC14R11(c *Ctx, rule string) {
 				}
 				al, ok := t.(*ssa.Alloc)
 				if !ok {
-					continue // a parameter or field: the caller's object, judged where it is allocated
+					// a parameter: the caller's object, judged at the call sites — each call must hand in a variable of
+					// its own iteration (one variable declared before a loop and decoded into on every round keeps the
+					// members of the previous answer)
+					if pa, isParam := t.(*ssa.Parameter); isParam {
+						pidx := -1
+						for i, q := range fn.Params {
+							if q == pa {
+								pidx = i
+							}
+						}
+						for _, cs := range c.callersOf(fn) {
+							if pidx < 0 || pidx >= len(cs.Common().Args) {
+								continue
+							}
+							arg := unwrap0(cs.Common().Args[pidx])
+							cal, isAlloc := arg.(*ssa.Alloc)
+							if !isAlloc {
+								continue
+							}
+							n++
+							key := "decode-target|" + fnKey(cs.Parent()) + "|via|" + fnKey(fn)
+							if inLoopWithout(cs.Block(), cal.Block()) {
+								c.R.Bad(rule, key, c.pos(cs), "one variable, declared outside the loop, receives the identity provider's answer on every round: members the next answer omits keep the previous answer's values (the access level of the project looked up before)", nil, nil)
+							} else {
+								c.ok(rule, key, cs, "each call decodes into a variable of its own")
+							}
+						}
+					}
+					continue
 				}
 				n++
 				key := "decode-target|" + fnKey(fn)
+				if inLoopWithout(b, al.Block()) {
+					c.R.Bad(rule, key, c.pos(in), "one variable, declared outside the loop, receives the identity provider's answer on every round: members the next answer omits keep the previous answer's values", nil, nil)
+					continue
+				}
 				var pre ssa.Instruction
 				var visit func(addr ssa.Value, depth int)
 				visit = func(addr ssa.Value, depth int) {
@@ -564,4 +596,32 @@ func runC14R11(c *Ctx, rule string) {
 	if n == 0 {
 		c.R.Unknown(rule, "decode-target|none", "-", "no decode of an identity-provider response into a local found")
 	}
+}
+
+// inLoopWithout: block b lies on a cycle of the control-flow graph that does not contain block a — an instruction in b
+// runs once per iteration of a loop that an allocation in a is outside of.
+func inLoopWithout(b, a *ssa.BasicBlock) bool {
+	reach := func(from *ssa.BasicBlock) map[*ssa.BasicBlock]bool {
+		seen := map[*ssa.BasicBlock]bool{}
+		var visit func(x *ssa.BasicBlock)
+		visit = func(x *ssa.BasicBlock) {
+			for _, s := range x.Succs {
+				if !seen[s] {
+					seen[s] = true
+					visit(s)
+				}
+			}
+		}
+		visit(from)
+		return seen
+	}
+	fromB := reach(b)
+	if !fromB[b] {
+		return false // b is not in a loop
+	}
+	if a == b {
+		return false
+	}
+	// same strongly connected component?
+	return !(fromB[a] && reach(a)[b])
 }
